@@ -7,6 +7,8 @@ import (
 	"strings"
 
 	"github.com/ajitpratap0/GoSQLX/pkg/sql/ast"
+	"github.com/ajitpratap0/GoSQLX/pkg/sql/parser"
+	"github.com/ajitpratap0/GoSQLX/pkg/sql/tokenizer"
 )
 
 // SQLFormatter provides AST-based SQL formatting with configurable rules
@@ -61,7 +63,57 @@ func (f *SQLFormatter) Format(astObj *ast.AST) (string, error) {
 		}
 	}
 
-	return f.builder.String(), nil
+	out := f.builder.String()
+	if !sameMeaning(astObj, out) {
+		// This formatter has no layout for some clause of the input and would
+		// drop or mangle it. Text that does not read back as the statements it
+		// was made from must never be printed (or written over a file): use
+		// the library's own formatter for this input instead.
+		if alt := f.libraryFormat(astObj); strings.TrimSpace(alt) != "" && sameMeaning(astObj, alt) {
+			out = alt
+		}
+	}
+	return out, nil
+}
+
+// sameMeaning reports whether text parses to the statements of astObj, judged
+// by the canonical serialisation of both trees.
+func sameMeaning(astObj *ast.AST, text string) bool {
+	tkz := tokenizer.GetTokenizer()
+	defer tokenizer.PutTokenizer(tkz)
+	tokens, err := tkz.Tokenize([]byte(text))
+	if err != nil {
+		return false
+	}
+	p := parser.NewParser()
+	defer p.Release()
+	reparsed, err := p.ParseFromModelTokens(tokens)
+	if err != nil {
+		return false
+	}
+	defer ast.ReleaseAST(reparsed)
+	return reparsed.SQL() == astObj.SQL()
+}
+
+// libraryFormat renders astObj with the library formatter, configured as
+// closely to this formatter's options as it allows.
+func (f *SQLFormatter) libraryFormat(astObj *ast.AST) string {
+	opts := ast.FormatOptions{
+		IndentStyle:      ast.IndentSpaces,
+		IndentWidth:      len(f.indent),
+		KeywordCase:      ast.KeywordPreserve,
+		NewlinePerClause: !f.compact,
+	}
+	if strings.HasPrefix(f.indent, "\t") {
+		opts.IndentStyle = ast.IndentTabs
+	}
+	if f.uppercaseKw {
+		opts.KeywordCase = ast.KeywordUpper
+	}
+	if f.compact {
+		opts.IndentWidth = 0
+	}
+	return astObj.Format(opts)
 }
 
 // formatStatement formats individual SQL statements
@@ -686,6 +738,11 @@ func (f *SQLFormatter) formatExpression(expr ast.Expression) error {
 				return err
 			}
 			return nil
+		}
+		// NOT EXISTS (...) is represented as a right-less NOT over the EXISTS
+		if e.Operator == "NOT" && e.Right == nil {
+			f.builder.WriteString(e.Operator + " ")
+			return f.formatExpression(e.Left)
 		}
 		// Standard binary expression
 		if err := f.formatExpression(e.Left); err != nil {
